@@ -388,7 +388,7 @@ def repeated_group_stratum(ctx, d):
 
 def mapping_spelling_stratum(ctx, ws):
     from jv import real
-    """The children of an operator written as ONE mapping (`$and: {push: [%rbp], mov: [%rsp, %rbp]}`) instead of a list of one-key
+    """The children of an operator - or the top-level `pattern:` - written as ONE mapping (`$and: {push: [%rbp], mov: [%rsp, %rbp]}`) instead of a list of one-key
     mappings: where the rule loads at all, the children are the entries in the order they are written, so the rule reports what
     its list spelling reports (keys in and out of alphabetical order). Identical at every seed; no model."""
     from jv import listing as L
@@ -404,6 +404,11 @@ def mapping_spelling_stratum(ctx, ws):
                      [("xor", ["%eax"]), ("sub", ["0x8"]), ("add", ["0x8", "%rsp"])], [("add", ["0x8"]), ("sub", ["0x8"]), ("xor", ["%eax", "%eax"])]):
             as_list = real.dump_rule({"pattern": [{kind: [{m: o} for m, o in kids]}]})
             as_map = real.dump_rule({"pattern": [{kind: {m: o for m, o in kids}}]})
+            if kind == "$and" and len(kids) == 3:
+                # the top-level `pattern:` itself written as one mapping (it is the $and of its entries)
+                as_list = real.dump_rule({"pattern": [{m: o} for m, o in kids]})
+                as_map = real.dump_rule({"pattern": {m: o for m, o in kids}})
+                ctx.event("mapping_spelling_cells_top_level_pattern")
             r1 = real.match(ws.write("map_l.yaml", as_list), lp, ret="list", search="all", only_addr=False)
             r2 = real.match(ws.write("map_m.yaml", as_map), lp, ret="list", search="all", only_addr=False)
             ctx.ran(2)
